@@ -353,7 +353,7 @@ class Tensor:
         return TensorDiagram((self, other)).calculate()
 
     def __pow__(self, power: int, modulo: int | None = None) -> Tensor:
-        if modulo is not None or not isinstance(power, int) or power < 1:
+        if modulo is not None or not isinstance(power, (int, np.integer)) or power < 1:
             return NotImplemented
 
         if power == 1:
